@@ -240,66 +240,78 @@ def compute_dyadic_downscaling(info, source_scale_index, downscaler,
             [num_channels, zmax - zmin, ymax - ymin, xmax - xmin],
             dtype=dtype
         )
-        new_chunk[:, :half_chunk[2], :half_chunk[1],
-                  :half_chunk[0]] = (
-                      load_and_downscale_old_chunk(
-                          z_idx * chunk_fetch_factor[2],
-                          y_idx * chunk_fetch_factor[1],
-                          x_idx * chunk_fetch_factor[0]))
+
+        def fill(z_slice, y_slice, x_slice, downscaled_chunk):
+            dest = new_chunk[:, z_slice, y_slice, x_slice]
+            if dest.shape != downscaled_chunk.shape:
+                # NumPy would silently broadcast a chunk of length 1
+                raise ValueError(
+                    f"The chunk sizes of scales {old_key} and {new_key} are "
+                    "incompatible: a downscaled chunk of shape "
+                    f"{downscaled_chunk.shape} does not fit in its slot of "
+                    f"shape {dest.shape} in chunk {new_chunk_coords}")
+            dest[...] = downscaled_chunk
+
+        fill(np.s_[:half_chunk[2]], np.s_[:half_chunk[1]],
+                 np.s_[:half_chunk[0]],
+                 load_and_downscale_old_chunk(
+                     z_idx * chunk_fetch_factor[2],
+                     y_idx * chunk_fetch_factor[1],
+                     x_idx * chunk_fetch_factor[0]))
         if new_chunk.shape[1] > half_chunk[2]:
-            new_chunk[:, half_chunk[2]:, :half_chunk[1],
-                      :half_chunk[0]] = (
-                          load_and_downscale_old_chunk(
-                              z_idx * chunk_fetch_factor[2] + 1,
-                              y_idx * chunk_fetch_factor[1],
-                              x_idx * chunk_fetch_factor[0]))
+            fill(np.s_[half_chunk[2]:], np.s_[:half_chunk[1]],
+                 np.s_[:half_chunk[0]],
+                 load_and_downscale_old_chunk(
+                     z_idx * chunk_fetch_factor[2] + 1,
+                     y_idx * chunk_fetch_factor[1],
+                     x_idx * chunk_fetch_factor[0]))
         if new_chunk.shape[2] > half_chunk[1]:
-            new_chunk[:, :half_chunk[2], half_chunk[1]:,
-                      :half_chunk[0]] = (
-                          load_and_downscale_old_chunk(
-                              z_idx * chunk_fetch_factor[2],
-                              y_idx * chunk_fetch_factor[1] + 1,
-                              x_idx * chunk_fetch_factor[0]))
+            fill(np.s_[:half_chunk[2]], np.s_[half_chunk[1]:],
+                 np.s_[:half_chunk[0]],
+                 load_and_downscale_old_chunk(
+                     z_idx * chunk_fetch_factor[2],
+                     y_idx * chunk_fetch_factor[1] + 1,
+                     x_idx * chunk_fetch_factor[0]))
         if (new_chunk.shape[1] > half_chunk[2]
                 and new_chunk.shape[2] > half_chunk[1]):
-            new_chunk[:, half_chunk[2]:, half_chunk[1]:,
-                      :half_chunk[0]] = (
-                          load_and_downscale_old_chunk(
-                              z_idx * chunk_fetch_factor[2] + 1,
-                              y_idx * chunk_fetch_factor[1] + 1,
-                              x_idx * chunk_fetch_factor[0]))
+            fill(np.s_[half_chunk[2]:], np.s_[half_chunk[1]:],
+                 np.s_[:half_chunk[0]],
+                 load_and_downscale_old_chunk(
+                     z_idx * chunk_fetch_factor[2] + 1,
+                     y_idx * chunk_fetch_factor[1] + 1,
+                     x_idx * chunk_fetch_factor[0]))
         if new_chunk.shape[3] > half_chunk[0]:
-            new_chunk[:, :half_chunk[2], :half_chunk[1],
-                      half_chunk[0]:] = (
-                          load_and_downscale_old_chunk(
-                              z_idx * chunk_fetch_factor[2],
-                              y_idx * chunk_fetch_factor[1],
-                              x_idx * chunk_fetch_factor[0] + 1))
+            fill(np.s_[:half_chunk[2]], np.s_[:half_chunk[1]],
+                 np.s_[half_chunk[0]:],
+                 load_and_downscale_old_chunk(
+                     z_idx * chunk_fetch_factor[2],
+                     y_idx * chunk_fetch_factor[1],
+                     x_idx * chunk_fetch_factor[0] + 1))
         if (new_chunk.shape[1] > half_chunk[2]
                 and new_chunk.shape[3] > half_chunk[0]):
-            new_chunk[:, half_chunk[2]:, :half_chunk[1],
-                      half_chunk[0]:] = (
-                          load_and_downscale_old_chunk(
-                              z_idx * chunk_fetch_factor[2] + 1,
-                              y_idx * chunk_fetch_factor[1],
-                              x_idx * chunk_fetch_factor[0] + 1))
+            fill(np.s_[half_chunk[2]:], np.s_[:half_chunk[1]],
+                 np.s_[half_chunk[0]:],
+                 load_and_downscale_old_chunk(
+                     z_idx * chunk_fetch_factor[2] + 1,
+                     y_idx * chunk_fetch_factor[1],
+                     x_idx * chunk_fetch_factor[0] + 1))
         if (new_chunk.shape[2] > half_chunk[1]
                 and new_chunk.shape[3] > half_chunk[0]):
-            new_chunk[:, :half_chunk[2], half_chunk[1]:,
-                      half_chunk[0]:] = (
-                          load_and_downscale_old_chunk(
-                              z_idx * chunk_fetch_factor[2],
-                              y_idx * chunk_fetch_factor[1] + 1,
-                              x_idx * chunk_fetch_factor[0] + 1))
+            fill(np.s_[:half_chunk[2]], np.s_[half_chunk[1]:],
+                 np.s_[half_chunk[0]:],
+                 load_and_downscale_old_chunk(
+                     z_idx * chunk_fetch_factor[2],
+                     y_idx * chunk_fetch_factor[1] + 1,
+                     x_idx * chunk_fetch_factor[0] + 1))
         if (new_chunk.shape[1] > half_chunk[2]
                 and new_chunk.shape[2] > half_chunk[1]
                 and new_chunk.shape[3] > half_chunk[0]):
-            new_chunk[:, half_chunk[2]:, half_chunk[1]:,
-                      half_chunk[0]:] = (
-                          load_and_downscale_old_chunk(
-                              z_idx * chunk_fetch_factor[2] + 1,
-                              y_idx * chunk_fetch_factor[1] + 1,
-                              x_idx * chunk_fetch_factor[0] + 1))
+            fill(np.s_[half_chunk[2]:], np.s_[half_chunk[1]:],
+                 np.s_[half_chunk[0]:],
+                 load_and_downscale_old_chunk(
+                     z_idx * chunk_fetch_factor[2] + 1,
+                     y_idx * chunk_fetch_factor[1] + 1,
+                     x_idx * chunk_fetch_factor[0] + 1))
 
         chunk_writer.write_chunk(
             new_chunk.astype(dtype), new_key, new_chunk_coords
